@@ -387,6 +387,10 @@ RULE = ("every sequence of mutating store operations up to the stated length ove
         "top-level key/field} x {InMemoryStateStore, SqliteStateStore on a real DB file} x {DictState, two-level typed "
         "model}; after every operation the full state dump and get() of 12-15 paths (with/without default) are compared "
         "with a nested-dict model; non-trivial = sequences of length >= 2")
+from vmc.tables import _ROUND7 as _R7  # noqa: E402
+
+RULE += _R7["C19"]
+
 
 
 def run(tier: str, seed: int) -> Any:
